@@ -25,6 +25,7 @@ LEVEL_TEXT = (
     "compared (shape, mask, values within the propagated error bound) with an independent reference interpreter that "
     "evaluates the dependency graph in exact rationals; the same model re-rendered in another order, without metadata "
     "and with extra consumers attached must give bit-identical results. Sampled, not exhaustive."
+    ' A slice dense in weighted commands, and a deep part: chains of 60-1500 value-preserving built-in commands linked directly, through lists or mixed, in forward, reversed and shuffled file order.'
 )
 LEVEL_NOTE = (
     "Nodes whose reference is undefined (statistics of fewer than two distinct values, decisions within rounding) and their "
